@@ -426,7 +426,7 @@ fn kind_name(kind: u8) -> &'static str {
     }
 }
 
-fn check_fixed(c: &FixedCase, obs: &mut Obs) -> Verdict {
+pub fn check_fixed(c: &FixedCase, obs: &mut Obs) -> Verdict {
     if c.kind > 2 || c.decimals > 6 {
         return Verdict::Discard("pattern outside the statement".into());
     }
@@ -561,7 +561,7 @@ fn general_case(_t: Tier) -> BoxedStrategy<GeneralCase> {
         .boxed()
 }
 
-fn check_general(c: &GeneralCase, obs: &mut Obs) -> Verdict {
+pub fn check_general(c: &GeneralCase, obs: &mut Obs) -> Verdict {
     if c.kind == 0 {
         let x = c.num.value();
         let value_text = x.to_string();
@@ -740,7 +740,7 @@ pub fn format_family(code: &str) -> &'static str {
 pub const CALENDAR_LIMIT: f64 = 9.0e7;
 
 /// Open findings of the `builtin` sub-check that the clean stratum steers around.
-const DATE_OVERFLOW_KEYS: [&str; 2] = [
+pub const DATE_OVERFLOW_KEYS: [&str; 2] = [
     "builtin-date:serial-beyond-calendar/panic:helper/date.rs",
     "builtin-date:serial-beyond-calendar/panic:lib.rs",
 ];
@@ -781,7 +781,7 @@ fn builtin_format(c: &BuiltinCase) -> (Option<u32>, Option<&'static str>) {
     }
 }
 
-fn check_builtin(c: &BuiltinCase, obs: &mut Obs) -> Verdict {
+pub fn check_builtin(c: &BuiltinCase, obs: &mut Obs) -> Verdict {
     let x = c.num.value();
     let (id, ecma) = builtin_format(c);
     // the code, looked up through the public API for library ids
@@ -948,4 +948,74 @@ fn extra(ctx: &Ctx) {
     });
     ctx.add_class("enumerated/n-values", n_max as u64 + 1);
     ctx.set_extra("enumerated", json!({"n_max": n_max, "scales": s_max + 1, "decimals": d_max + 1, "kinds": 3}));
+}
+
+// ---------------------------------------------------------------------------------------
+// fuzzing entry (fuzz/fuzz_targets/fuzz_numfmt.rs)
+
+/// Decode fuzzer bytes into a case of one of the sub-checks.  Every byte string decodes to
+/// a case inside the generators' domain (digits are taken modulo 10, lengths are clamped).
+pub fn fuzz_decode(data: &[u8]) -> Option<(&'static str, serde_json::Value)> {
+    let (&sel, rest) = data.split_first()?;
+    let digit_string = |b: &[u8]| -> String { b.iter().map(|x| (b'0' + x % 10) as char).collect() };
+    match sel % 4 {
+        0 | 1 => {
+            // fixed: [flags][int len][digits...]
+            let (&flags, rest) = rest.split_first()?;
+            let (&il, rest) = rest.split_first()?;
+            let il = (il as usize % 16).min(rest.len());
+            let int = digit_string(&rest[..il]);
+            let frac = digit_string(&rest[il..rest.len().min(il + 16)]);
+            let kind = (flags >> 3) % 3;
+            let shown = clamp_fixed(
+                Num { neg: flags & 0x80 != 0, int: int.trim_start_matches('0').to_string(), frac, exp: 0 },
+                kind,
+            );
+            let case = FixedCase { shown, decimals: flags % 7, kind, route: (flags >> 5) % 3 };
+            Some(("fixed", serde_json::to_value(case).ok()?))
+        }
+        2 => {
+            // builtin: [fmt hi][fmt lo][route/dirty][8 bytes of f64 bits]
+            if rest.len() < 11 {
+                return None;
+            }
+            let fmt = u16::from_be_bytes([rest[0], rest[1]]);
+            let x = f64::from_bits(u64::from_le_bytes(rest[3..11].try_into().ok()?));
+            if !x.is_finite() {
+                return None;
+            }
+            let d = Dec::shortest(x);
+            let num = Num { neg: d.neg, int: "0".into(), frac: d.digits.iter().map(|v| (b'0' + v) as char).collect(), exp: d.point };
+            let case = BuiltinCase { fmt, num, route: rest[2] & 1, dirty: rest[2] & 0xF0 == 0xF0 };
+            Some(("builtin", serde_json::to_value(case).ok()?))
+        }
+        _ => {
+            // general text: the rest as (lossy) UTF-8 without NUL
+            let (&route, rest) = rest.split_first()?;
+            let text: String = String::from_utf8_lossy(rest).chars().filter(|c| *c != '\0').take(40).collect();
+            if text.is_empty() {
+                return None;
+            }
+            let case = GeneralCase { kind: 1, num: Num { neg: false, int: "0".into(), frac: String::new(), exp: 0 }, text, route: route % 3 };
+            Some(("general", serde_json::to_value(case).ok()?))
+        }
+    }
+}
+
+/// Judge one fuzzer input: `Some((sub, key, detail))` for a discrepancy that is not one of
+/// the open known findings of the `builtin` dirty stratum.
+pub fn fuzz_judge(data: &[u8]) -> Option<(&'static str, String, String)> {
+    static HOOK: std::sync::Once = std::sync::Once::new();
+    HOOK.call_once(install_panic_hook);
+    let (sub, case) = fuzz_decode(data)?;
+    let mut obs = Obs::default();
+    let v = match sub {
+        "fixed" => check_fixed(&serde_json::from_value(case).ok()?, &mut obs),
+        "builtin" => check_builtin(&serde_json::from_value(case).ok()?, &mut obs),
+        _ => check_general(&serde_json::from_value(case).ok()?, &mut obs),
+    };
+    match v {
+        Verdict::Fail { key, detail } if !DATE_OVERFLOW_KEYS.contains(&key.as_str()) => Some((sub, key, detail)),
+        _ => None,
+    }
 }
